@@ -104,7 +104,7 @@ def project_list(tier):
                         ("f_hold", {"nesting": nesting, "fail": fail, "sub": sub}),
                         {"njob": nj, "resources": None}, None))
     # a resource holder that is detached while it runs (its creator fails or is re-executed)
-    for kind in ("fail", "defer"):
+    for kind in ("fail", "defer", "defer_changed"):
         for nj in (3, 4):
             out.append((f"resdet:{kind}j{nj}", ("f_resdetached", {"kind": kind}),
                         {"njob": nj, "resources": "gpu:1", "keep_going": True}, None))
@@ -292,12 +292,15 @@ def run_job(spec):
             acc.nontrivial.add(h8([name, obs.choices]))
         acc.outcomes.setdefault(f"{name}|{obs.rc_class}|{h8(sorted(obs.started))}", 1)
         rep = {"check": "C12", "spec": spec, "prefix": obs.choices}
+        # the project that re-declares a running detached step with another signature shows the
+        # recorded root cause 13 (DESIGN 6.2) under keys of its own
+        changed = "defer_changed" in name
         for kind, msg, extra in obs.monitor:
-            acc.violation(f"C12|{name.split(':')[0]}|{kind}",
+            acc.violation(f"C12|{'resdet:defer_changed' if changed else name.split(':')[0]}|{kind}",
                           {"project": name, "limit": kind, "what": msg, "running": extra,
                            "exec": describe(obs)}, rep)
         if not obs.ok() or obs.exceptions:
-            acc.violation(f"C12|{name}|fault", {"project": name, "exec": describe(obs),
+            acc.violation(f"C12|{'resdet:defer_changed' if changed else name}|fault", {"project": name, "exec": describe(obs),
                                                   "exceptions": obs.exceptions[:2]}, rep)
         if len(acc.samples) < 3 and obs.flags:
             acc.sample({"project": name, "flags": sorted(obs.flags), **describe(obs, 14)})
